@@ -1,6 +1,6 @@
 """C08 — actual ET never exceeds potential ET; uptake only from rooted layers above the groundwater
 (DESIGN.md §6 C08)."""
-import os, re
+import json, os, re
 from core import Corr, Fail
 from props import waterlib
 from props.waterlib import fl, fls, b
@@ -227,5 +227,29 @@ def oracle(ctx, search):
     for ln in orc:
         kind = ln.split(" ")[0]
         m = re.search(r"(synth idx=\d+ meth=\d+|trace line=\d+ zeit=\d+(?: meth=\d+)?)", ln)
-        fails.append(Fail(key="%s:%s" % (kind, m.group(1) if m else ""), what=ln))
+        fails.append(Fail(key="%s:%s" % (kind, m.group(1) if m else ""), what=ln, seed=ctx.seed, tier=ctx.tier,
+                          rerun="./check C08 --replay <this file>  (re-runs the synthetic case / the traced lines with the recorded seed)"))
     return fails[:200]
+
+
+def replay(ctx, r):
+    """re-evaluates the property on the real code for the recorded failing inputs (same seed, same case index / day)"""
+    shown = 0
+    for f in r.get("failing_inputs", []):
+        ctx.seed = f.get("seed", ctx.seed)
+        ctx.thorough = f.get("tier") == "thorough"
+        ctx.tier = f.get("tier", ctx.tier)
+        m = re.search(r"(synth idx=\d+ meth=\d+|trace line=\d+ zeit=\d+)", f.get("what", ""))
+        if not m:
+            continue
+        rc, rows, orc, other, err = _run(ctx)
+        hits = [ln for ln in orc if m.group(1) in ln]
+        print("%s -> %s" % (m.group(1), "property fails again:" if hits else "no failure now"))
+        for h in hits[:10]:
+            print("  ORACLE " + h)
+        shown += 1 if hits else 0
+        if shown >= 5:
+            break
+    if not r.get("failing_inputs"):
+        print(json.dumps(r, indent=1)[:4000])
+    return 1 if shown else 0
